@@ -41,6 +41,13 @@ def words(alpha):
     for w in all_words(al, N if len(al) <= 3 else 3):
         if w.count("zz_foreign") <= 1:
             yield w
+    if len(alpha) > 3:
+        # large alphabets: every one-letter word and a sample of two-letter words as well
+        rest = sorted(alpha, key=repr)
+        for a_ in rest:
+            yield (a_,)
+        for i in range(0, len(rest) - 1, 7):
+            yield (rest[i], rest[i + 1])
 
 
 def pda_tags(r):
@@ -144,6 +151,13 @@ def install():
 def plan(tier, rng, sl, nslices, stats):
     cfg = TIERS[tier]
     for i in range(cfg["random"]):
+        if i == 0 and sl == 0:
+            # scale cases (one worker): a grammar with 240 symbols, a PDA with 300 stack symbols
+            nvar = 120
+            yield {"kind": "cfg", "g": {"nv": nvar + 1, "nt": nvar, "start": 0, "vc": "manyterms",
+                                        "prods": [[0, [["V", j]]] for j in range(1, nvar + 1)] +
+                                                 [[j, [["T", j - 1]]] for j in range(1, nvar + 1)]}}
+            yield {"kind": "pda", "p": gpda.many_stack_case(rng), "light": True}
         if i % 40 == 7:
             yield {"kind": "pda", "p": gpda.many_states_case(rng) if i % 80 == 7 else gpda.digit_clash_case(rng),
                    "light": True}
